@@ -8,6 +8,7 @@ import (
 	"verifharness/checks/c03c"
 	"verifharness/checks/c09"
 	"verifharness/checks/c10"
+	"verifharness/checks/c10d"
 	"verifharness/checks/c16"
 	"verifharness/checks/c17"
 	"verifharness/checks/c18"
@@ -18,7 +19,16 @@ func init() {
 	registry["C01"] = entry{"exploration", c01.Run}
 	registry["C02"] = entry{"fault_enumeration", c02.Run}
 	registry["C09"] = entry{"exploration", c09.Run}
-	registry["C10"] = entry{"fault_enumeration", c10.Run}
+	registry["C10"] = entry{"fault_enumeration", func(r *rep.Run) {
+		if os.Getenv("VERIF_C10D_WORKER") != "" {
+			c10d.RunD(r) // a part D worker process
+			return
+		}
+		c10.Run(r)
+		if _, _, worker := rep.Shard(); !worker && os.Getenv("VERIF_REPLAY") == "" {
+			c10d.RunD(r)
+		}
+	}}
 	registry["C16"] = entry{"exploration", c16.Run}
 	registry["C17"] = entry{"fault_enumeration", c17.Run}
 	registry["C18"] = entry{"exploration", c18.Run}
